@@ -263,7 +263,103 @@ def rule_c(ctx, out):
         out.bad("model-reader-decode", "decoding does not use the instruction factory's theta table", where(rb))
 
 
+DEPS = "smt_encoding.instructions.instruction_dependencies"
+
+
+def _sub2(e):
+    """(container name, index text) of  <name>[<index>]"""
+    if isinstance(e, ast.Subscript) and isinstance(e.value, ast.Name):
+        return e.value.id, norm(e.slice)
+    return None
+
+
+def rule_d(ctx, out):
+    """The order constraints l_a < l_b and the position bounds are built from the dependency graph; an order tuple is left out of the
+    graph only when the happens-before map already contains it.  Inductive invariant (checked per update site):
+        H[x] is a subset of the instructions reachable from x in the graph (plus x).
+    It is preserved by `H[a].update(H[b])` / `H[a].add(b)` only where a -> b is an edge: b iterates over G[a], or `G[a].append(b)` stands
+    in the same block.  An update in the other direction over-approximates H, order tuples are then wrongly judged redundant and the
+    hard constraints lose an ordering.  Also: all graph builders insert an order tuple (first, second) as the edge second -> first,
+    and the redundancy test asks about exactly the edge it guards."""
+    fs = ctx.p.funcs_in(DEPS)
+    n_upd = 0
+    for f in fs:
+        for c in calls_in(f.node):
+            if not (isinstance(c.func, ast.Attribute) and c.func.attr in ("update", "add") and _sub2(c.func.value) and len(c.args) == 1):
+                continue
+            H, a = _sub2(c.func.value)
+            if c.func.attr == "update":
+                src = _sub2(c.args[0])
+                if not src or src[0] != H:
+                    continue
+                b = src[1]
+            else:
+                b = norm(c.args[0])
+            n_upd += 1
+            if a == b:
+                out.ok({"function": f.name, "update": short(c, 60), "justified": "reflexive"})
+                continue
+            just = None
+            cur = c
+            while cur is not None and cur is not f.node and just is None:
+                par = getattr(cur, "_parent", None)
+                if isinstance(par, ast.For) and norm(par.target) == b and _sub2(par.iter) and _sub2(par.iter)[1] == a:
+                    just = f"{b} iterates over {norm(par.iter)}"
+                for fld in ("body", "orelse"):
+                    seq = getattr(par, fld, None)
+                    if isinstance(seq, list) and cur in seq:
+                        for s2 in seq:
+                            if isinstance(s2, ast.Expr) and isinstance(s2.value, ast.Call) and isinstance(s2.value.func, ast.Attribute) and s2.value.func.attr == "append" \
+                                    and _sub2(s2.value.func.value) and _sub2(s2.value.func.value)[1] == a and len(s2.value.args) == 1 and norm(s2.value.args[0]) == b:
+                                just = f"edge added by {short(s2, 50)}"
+                cur = par
+            if just:
+                out.ok({"function": f.name, "update": short(c, 60), "justified": just})
+            else:
+                out.bad(f"closure-update-without-edge:{f.name}:{H}[{a}]<-{b}", f"{f.name}: `{short(c, 70)}` adds the predecessors of {b} to those of {a}, but no edge "
+                        f"{a} -> {b} is in the graph at that point: the happens-before map over-approximates reachability", where(f, c))
+    if n_upd < 3:
+        raise AnalysisError(f"only {n_upd} happens-before updates found")
+    # direction of order tuples and the redundancy test
+    n_dir = 0
+    for f in fs:
+        for loop in own_nodes(f.node):
+            if not (isinstance(loop, ast.For) and isinstance(loop.target, ast.Tuple) and len(loop.target.elts) == 2 and "order_tuples" in norm(loop.iter)):
+                continue
+            first, second = (norm(e) for e in loop.target.elts)
+            apps = [c for c in calls_in(ast.Module(body=loop.body, type_ignores=[])) if isinstance(c.func, ast.Attribute) and c.func.attr == "append" and _sub2(c.func.value)]
+            for c in apps:
+                n_dir += 1
+                a, b = _sub2(c.func.value)[1], norm(c.args[0])
+                if (a, b) == (second, first):
+                    out.ok({"function": f.name, "order_tuple": f"({first}, {second})", "edge": f"{second} -> {first}"})
+                else:
+                    out.bad(f"order-tuple-direction:{f.name}", f"{f.name}: the order tuple ({first}, {second}) = '{first} before {second}' is inserted as edge {a} -> {b}; "
+                            f"the other builders and the readers of the graph use {second} -> {first}", where(f, c))
+                # guard
+                par = getattr(getattr(c, "_parent", None), "_parent", None)
+                if isinstance(par, ast.If):
+                    hb = calls_in(par.test, "happens_before")
+                    if hb:
+                        n_dir += 1
+                        neg = isinstance(par.test, ast.UnaryOp) and isinstance(par.test.op, ast.Not)
+                        if neg and len(hb[0].args) >= 2 and (norm(hb[0].args[0]), norm(hb[0].args[1])) == (a, b):
+                            out.ok({"function": f.name, "redundancy_test": short(par.test, 70), "asks_about": f"{a} -> {b}"})
+                        else:
+                            out.bad(f"redundancy-test-mismatch:{f.name}", f"{f.name}: the edge {a} -> {b} is left out under `{short(par.test, 70)}`, which does not ask whether "
+                                    f"{b} already happens before {a}", where(f, par))
+    hb = ctx.func(f"{DEPS}.happens_before")
+    rets = [r for r in own_nodes(hb.node) if isinstance(r, ast.Return)]
+    if len(rets) == 1 and len(hb.params) >= 4 and norm(rets[0].value).replace(" ", "") == f"{hb.params[1]}in{hb.params[3]}[{hb.params[0]}]":
+        out.ok({"happens_before": norm(rets[0].value)})
+    else:
+        out.bad("happens_before:definition", f"happens_before no longer answers `{hb.params[1]} in H[{hb.params[0]}]`", where(hb))
+    if n_dir < 3:
+        raise AnalysisError(f"only {n_dir} order-tuple insertions/guards found")
+
+
 RULES = [
+    ("C06.d", "happens-before map under-approximates the dependency graph", 7, rule_d),
     ("C06.a", "every SMT symbol is declared", 10, rule_a),
     ("C06.b", "encoder dispatch exhaustive; registered keywords match signatures", 20, rule_b),
     ("C06.c", "model reader and domain constraint range over the same positions", 5, rule_c),
